@@ -196,7 +196,14 @@ impl Prop for C18 {
                             "none-accepts-with-different-content",
                             what.into(),
                             "none",
-                            format!("both builds accept but the {} differs (std {:?} vs none {:?})", what, a, b),
+                            format!(
+                                "both builds accept but the {} differs (payload length std {} vs none {}; message std {:?} vs none {:?})",
+                                what,
+                                a.data.len(),
+                                b.data.len(),
+                                a.message.as_ref().map(|m| m.chars().take(120).collect::<String>()),
+                                b.message.as_ref().map(|m| m.chars().take(120).collect::<String>())
+                            ),
                         ));
                     }
                 }
